@@ -1,0 +1,19 @@
+//go:build verif
+
+package rsm
+
+import (
+	pb "github.com/lni/dragonboat/v4/raftpb"
+)
+
+// VerifNewChunkWriter is NewChunkWriter with a chosen block size, so that the
+// C15 harness can stream multi-block snapshots cheaply. Compiled only with
+// -tags verif.
+func VerifNewChunkWriter(sink pb.IChunkSink, meta SSMeta, blockSize uint64) *ChunkWriter {
+	cw := &ChunkWriter{
+		sink: sink,
+		meta: meta,
+	}
+	cw.bw = NewBlockWriter(blockSize, cw.onNewBlock, DefaultChecksumType)
+	return cw
+}
